@@ -314,6 +314,19 @@ func run(c Case) (string, *mc.Viol) {
 }
 
 func names(ls []int) string {
+	if len(ls) > 12 {
+		cnt := map[int]int{}
+		for _, l := range ls {
+			cnt[l]++
+		}
+		s := fmt.Sprintf("[%d requests:", len(ls))
+		for l := 0; l < nLetters; l++ {
+			if cnt[l] > 0 {
+				s += fmt.Sprintf(" %dx %s", cnt[l], letterName[l])
+			}
+		}
+		return s + fmt.Sprintf("; position %d is %s]", len(ls)/2, letterName[ls[len(ls)/2]])
+	}
 	s := "["
 	for i, l := range ls {
 		if i > 0 {
@@ -365,6 +378,19 @@ func main() {
 		}
 	}
 	build(nil)
+	// large homogeneous batches: the encoded response list crosses the varint class boundaries
+	// (16383/16384 bytes at 64 type-2 / 113 type-1 entries) and 2^16 (254 type-2 / 449 type-1)
+	big := map[int][]int{t2A: mc.Pick(r, []int{63, 64, 254}, []int{63, 64, 65, 253, 254, 255, 300}), t1A: mc.Pick(r, []int{112, 113, 449}, []int{112, 113, 114, 448, 449, 450})}
+	for _, letter := range []int{t2A, t1A} {
+		for _, nb := range big[letter] {
+			ls := make([]int, nb)
+			for i := range ls {
+				ls[i] = letter
+			}
+			ls[nb/2] = map[int]int{t2A: t2Unknown, t1A: t1Unknown}[letter] // one failing request in the middle
+			cases = append(cases, Case{Config: 0, Letters: ls})
+		}
+	}
 	r.SetRule(fmt.Sprintf("every sequence of length 1..%d over the 9-letter request alphabet {type1,type2} x {key A, key B, unknown truncated key id, malformed blinded element} plus a type-1 key C whose truncated id equals that of the type-2 key A x every one of %d issuer configurations (both types, one type, none, two issuers per type in both orders); unsupported type = configuration lacking that type. Cases are distinct tuples; non-trivial = batch with at least one request", n, len(configs)))
 	r.Assume("issuer configurations in which two issuers of one type share a truncated key id are excluded (the protocol cannot tell which key the client meant)",
 		"reference model: entry present iff a configured issuer of the request's type and truncated key id exists and the blinded element is well-formed",
